@@ -5,7 +5,7 @@
 # (VERIF_REPO; /repo is not touched) and records /verif/seeded/<PROP>-<n>/ with the next free number n.
 set -u
 P=$1; K=$2; TIER=${3:-quick}; shift; shift; shift || true; EXTRA="$*"
-SRC=/tmp/seed2/$P/out/$K; WT=/tmp/seed2/$P/wt; V=/verif
+S=${SEEDROOT:-/tmp/seed2}; SRC=$S/$P/out/$K; WT=$S/$P/wt; V=/verif
 export GOFLAGS= GOPROXY=off GOSUMDB=off GOTOOLCHAIN=local
 [ -f $SRC/patch.diff ] || { echo "no patch in $SRC"; exit 2; }
 DEMO=$(ls $SRC/*_test.go 2>/dev/null | head -1); [ -n "$DEMO" ] || { echo "no demo"; exit 2; }
@@ -42,26 +42,26 @@ git -C $WT apply $SRC/patch.diff || { echo "PATCH-DOES-NOT-APPLY"; exit 2; }
 T=ok; for m in . src/free5gclib src/stgutg src/tglib; do (cd $WT/$m && go build ./... && go test -vet=off -count=1 ./... >/dev/null 2>&1) || T=FAIL; done
 RACE=""; grep -qi -- '-race' $SRC/README.md 2>/dev/null && [ "$P" = C20 ] && RACE="-race"
 cp $DEMO $WT/$DDIR/zz_demo_test.go
-(cd $WT/$DDIR && CGO_ENABLED=${RACE:+1} timeout 600 go test $RACE -vet=off -count=1 . >/tmp/seed2/$P/demo_with_$K.log 2>&1); DW=$?
+(cd $WT/$DDIR && CGO_ENABLED=${RACE:+1} timeout 600 go test $RACE -vet=off -count=1 . >$S/$P/demo_with_$K.log 2>&1); DW=$?
 git -C $WT apply -R $SRC/patch.diff
-(cd $WT/$DDIR && CGO_ENABLED=${RACE:+1} timeout 600 go test $RACE -vet=off -count=1 . >/tmp/seed2/$P/demo_without_$K.log 2>&1); DWO=$?
+(cd $WT/$DDIR && CGO_ENABLED=${RACE:+1} timeout 600 go test $RACE -vet=off -count=1 . >$S/$P/demo_without_$K.log 2>&1); DWO=$?
 rm -f $WT/$DDIR/zz_demo_test.go; git -C $WT checkout -q -- . ; git -C $WT clean -fdq
 echo "seed $P/$K demo_dir=$DDIR suite_with_patch=$T demo_with_patch_exit=$DW demo_without_patch_exit=$DWO"
 git -C $WT apply $SRC/patch.diff
 RES=""; DET=0
 for p in $P $EXTRA; do
-  OUT=$(VERIF_REPO=$WT VERIF_BUILD=/tmp/seed2/$P/build VERIF_EVIDENCE=/tmp/seed2/$P/ev_$K $V/check $p $TIER 2>&1); CE=$?
+  OUT=$(VERIF_REPO=$WT VERIF_BUILD=$S/$P/build VERIF_EVIDENCE=$S/$P/ev_$K $V/check $p $TIER 2>&1); CE=$?
   echo "$OUT" | grep -E "^(VIOLATION|KNOWN|HARNESS|BUILD|SUMMARY)" | cut -c1-260 | head -4; [ $CE = 2 ] && echo "$OUT" | tail -5 | cut -c1-600
   echo "check $p exit=$CE"; RES="$RES $p:$CE"; [ $CE = 1 ] && DET=1
 done
-git -C $WT checkout -q -- . ; git -C $WT clean -fdq; rm -rf /tmp/seed2/$P/build
+git -C $WT checkout -q -- . ; git -C $WT clean -fdq; rm -rf $S/$P/build
 N=1; while [ -e $V/seeded/$P-$N ]; do N=$((N+1)); done
 [ -n "${SEED_SLOT:-}" ] && N=$SEED_SLOT
 D=$V/seeded/$P-$N; mkdir -p $D; cp $SRC/patch.diff $D/patch.diff; cp $DEMO $D/demo_test.go; [ -f $SRC/README.md ] && cp $SRC/README.md $D/README.md
 python3 - "$P" "$N" "$T" "$DW" "$DWO" "$RES" "$TIER" "$DDIR" "$D" "$DET" "$RACE" <<'PY'
 import json,sys
 p,n,t,dw,dwo,res,tier,ddir,d,det,race=sys.argv[1:]
-json.dump({"property":p,"seed":int(n),"round":2,"suite_passes_with_change":t=="ok","demo_fails_with_change":dw!="0","demo_passes_without_change":dwo=="0",
+json.dump({"property":p,"seed":int(n),"round":int(__import__("os").environ.get("SEEDROUND","2")),"suite_passes_with_change":t=="ok","demo_fails_with_change":dw!="0","demo_passes_without_change":dwo=="0",
  "demo_dir":ddir,"demo_cmd":"go test %s -vet=off -count=1 ." % race,"checks_run":{x.split(':')[0]:int(x.split(':')[1]) for x in res.split()},"tier":tier,"detected":det=="1",
  "needs":"see README.md (written by the sub-agent that produced the change, from the property text alone)",
  "ran":["in a scratch worktree: git apply patch.diff; baseline suite; demo with and without the change","VERIF_REPO=<scratch worktree with the change> ./check <ID> %s  (the scratch tree is checked, /repo is not modified)"%tier]},open(d+"/meta.json","w"),indent=1)
